@@ -3667,7 +3667,7 @@ class C15(Prop):
     rule = ('failing (path, document) pairs from the C01 generators: error type, path text, expected and found compared '
             'exactly with the model (which keeps the connected-text ranking); for single-valued name/index paths (texts confirmed as Coq chain_path, broken by a missing name, a name under a non-object, an index outside the array or under a non-array) the '
             'error must be the first failing step with the right kind, computed independently in the harness; a user filter function '
-            'that panics around an aggregate must reach the caller as a panic, not as an error of another step. '
+            'that panics around an aggregate must reach the caller as a panic, not as an error of another step; location paths followed by library functions (aggregate first or not) must fail at the first function that fails, named as written. '
             'Non-trivial: the retrieval fails on a path of >= 2 steps')
     trusted = TRUSTED_EVAL
 
@@ -3761,6 +3761,51 @@ class C15(Prop):
             cases.append(c)
             expect[c.id] = exp_
             keyc_cases = True
+        # C15_failing_function_from_text: name and index steps down to a node, then 1..3 filter functions: the call fails at the FIRST
+        # function that fails on what the functions before it returned, naming it as written (expectation from applying the
+        # harness's own definitions of the library functions); the text is Coq's chain_fun_path (driver-confirmed)
+        def lib_apply(name, v):
+            if name == 'twice':
+                return ('n', v[1] * 2) if v[0] == 'n' else None
+            if name == 'wrap':
+                return ('a', [v])
+            if name == 'tn':
+                return ('s', GO_TYPE[v[0]])
+            if name == 'fstr':
+                return None if v[0] == 's' else v
+            if name == 'id':
+                return v
+            return None
+        for i in range(max(60, n // 20)):
+            lc = gen_loc_chain(g)
+            if lc is None:
+                continue
+            doc, text, spec, loc, val = lc
+            names = [r.choice(['twice', 'fstr', 'id', 'wrap', 'tn', 'fail', 'twice', 'fstr']) for _ in range(r.randint(1, 3))]
+            x, exp_, agg = val, None, None
+            if r.random() < 0.35:
+                # C15_failing_aggregate_from_text: an aggregate first — it receives the elements of the array reached, or the single value
+                agg = r.choice(['amax', 'first', 'cnt', 'afail', 'arr'])
+                names = names[:r.randint(0, 2)]
+                args = list(x[1]) if x[0] == 'a' else [x]
+                nums = [a_[1] for a_ in args if a_[0] == 'n']
+                x = {'cnt': ('n', float(len(args))), 'first': args[0] if args else None, 'arr': ('a', args),
+                     'amax': ('n', max(nums)) if nums else None, 'afail': None}[agg]
+                if x is None:
+                    exp_ = ('ff', ('.%s()' % agg).encode())
+            if exp_ is None:
+                for nm in names:
+                    x = lib_apply(nm, x)
+                    if x is None:
+                        exp_ = ('ff', ('.%s()' % nm).encode())
+                        break
+            names = ([agg] if agg else []) + names
+            c = Case('fe%d' % i, (text + ''.join('.%s()' % nm for nm in names)).encode('utf-8'), [doc], sorted(set(names) - {agg}), [agg] if agg else [],
+                     meta={'family': 'coq-fun-path-error', 'nsteps': len(spec) + len(names)})
+            c.keyc = spec
+            c.keyf = [[ord(ch) for ch in nm] for nm in names]
+            cases.append(c)
+            expect[c.id] = exp_
         # several branches failing in DIFFERENT functions of a chain: the error names the function furthest along the path,
         # whatever the order of the branches
         for i in range(max(30, n // 40)):
@@ -3818,6 +3863,8 @@ class C15(Prop):
                     want = 'ok'
                 elif e[0] == 'mne':
                     want = 'mne:' + hx(e[1])
+                elif e[0] == 'ff':
+                    want = 'ff:' + hx(e[1])
                 else:
                     want = 'tum:%s:%s:%s' % (hx(e[1]), e[2], hx(GO_TYPE[e[3][0]]))
                 if fa != want:
